@@ -114,28 +114,42 @@ class _OracleModel:
         results = []
         for p in paths:
             state = {"f": None, "g": None, "recorded": None, "outcome": None}
+            vals = {}          # every local that holds a gradient / value candidate: name -> kind
+
+            def final(v):
+                k = vals.get(self.f if v == "f" else self.g)
+                if k in ("combination-f", "combination-g"):
+                    return "combination" if k == "combination-" + v else "bad-combination: the %s is built from the terms' %s" % (
+                        "value" if v == "f" else "gradient", "gradients" if v == "f" else "values")
+                return k
             for ev in p.trace:
-                if isinstance(ev, ast.Assign) and isinstance(ev.targets[0], ast.Name) and ev.targets[0].id in (self.f, self.g):
-                    v = "f" if ev.targets[0].id == self.f else "g"
-                    state[v] = self.kind(ev.value, v)
-                elif isinstance(ev, ast.AugAssign) and isinstance(ev.target, ast.Name) and ev.target.id in (self.f, self.g) and isinstance(ev.op, ast.Add):
-                    v = "f" if ev.target.id == self.f else "g"
+                if isinstance(ev, ast.Assign) and len(ev.targets) == 1 and isinstance(ev.targets[0], ast.Name):
+                    nm = ev.targets[0].id
+                    if isinstance(ev.value, ast.Name) and ev.value.id in vals:
+                        vals[nm] = vals[ev.value.id]
+                    elif nm in (self.f, self.g) or (isinstance(ev.value, ast.Call) and call_name(ev.value) in ("Point", "Expression")):
+                        vals[nm] = self.kind(ev.value, nm)
+                elif isinstance(ev, ast.AugAssign) and isinstance(ev.target, ast.Name) and ev.target.id in vals and isinstance(ev.op, ast.Add):
+                    nm = ev.target.id
                     lp = flow.in_loop(ev)
-                    ok = False
+                    ok = None
                     if lp is not None and isinstance(lp, ast.For) and isinstance(lp.iter, ast.Call) and call_name(lp.iter) == "items" \
-                            and dotted(lp.iter.func.value) == "self.decomposition_dict" and isinstance(lp.target, ast.Tuple) and state[v] == "zero":
+                            and dotted(lp.iter.func.value) == "self.decomposition_dict" and isinstance(lp.target, ast.Tuple) and vals[nm] == "zero":
                         fnv, w = [e.id for e in lp.target.elts]
                         val = ev.value
                         if isinstance(val, ast.BinOp) and isinstance(val.op, ast.Mult):
                             parts = [val.left, val.right]
                             calls = [q for q in parts if isinstance(q, ast.Call) and isinstance(q.func, ast.Attribute) and dotted(q.func.value) == fnv]
                             ws = [q for q in parts if dotted(q) == w]
-                            want = ("value",) if v == "f" else ("gradient", "subgradient")
-                            ok = len(calls) == 1 and len(ws) == 1 and call_name(calls[0]) in want
-                    state[v] = "combination" if ok else "bad-combination:" + norm_stmt(ev)[:50]
+                            if len(calls) == 1 and len(ws) == 1 and call_name(calls[0]) == "value":
+                                ok = "combination-f"
+                            elif len(calls) == 1 and len(ws) == 1 and call_name(calls[0]) in ("gradient", "subgradient"):
+                                ok = "combination-g"
+                    vals[nm] = ok if ok else "bad-combination:" + norm_stmt(ev)[:50]
                 elif isinstance(ev, ast.Expr) and isinstance(ev.value, ast.Call) and call_name(ev.value) == "add_point":
                     a = get_arg(ev.value, 0, "triplet")
                     state["recorded"] = [src(e) for e in a.elts] if isinstance(a, ast.Tuple) else src(a)
+            state["f"], state["g"] = final("f"), final("g")
             if p.kind == "return":
                 last = p.trace[-1]
                 rv = last.value if isinstance(last, ast.Return) else None
@@ -405,11 +419,80 @@ def r_addpoint(ctx):
         return
     lp, tg, posvar = dist[0]
     fvar, wvar = [e.id for e in tg.elts]
+    # the loop visits every term exactly once, the terms that need nothing first, and runs exactly when some term needs something
+    blockdefs = {}
+    for s0 in flow.stmts_of_block(comp[0]):
+        if isinstance(s0, ast.Assign) and len(s0.targets) == 1:
+            t0 = s0.targets[0]
+            if isinstance(t0, ast.Name):
+                blockdefs.setdefault(t0.id, []).append(s0.value)
+            elif isinstance(t0, ast.Tuple) and isinstance(s0.value, ast.Call) and call_name(s0.value) == SEPARATE and len(t0.elts) == 3:
+                for k0, e0 in enumerate(t0.elts):
+                    if isinstance(e0, ast.Name):
+                        blockdefs.setdefault(e0.id, []).append(("sep", k0))
+
+    def comps(e, depth=0):
+        """list of indices into the (need nothing, need gradient, need both) classification, or None"""
+        if depth > 6:
+            return None
+        if isinstance(e, tuple) and e[0] == "sep":
+            return [e[1]]
+        if isinstance(e, ast.BinOp) and isinstance(e.op, ast.Add):
+            l0, r0 = comps(e.left, depth + 1), comps(e.right, depth + 1)
+            return None if l0 is None or r0 is None else l0 + r0
+        if isinstance(e, ast.Subscript) and isinstance(e.slice, ast.Constant) and isinstance(e.slice.value, int):
+            base = e.value
+            if isinstance(base, ast.Name) and len(blockdefs.get(base.id, [])) == 1:
+                base = blockdefs[base.id][0]
+            if isinstance(base, ast.Call) and call_name(base) == SEPARATE:
+                return [e.slice.value % 3] if -3 <= e.slice.value < 3 else None
+            return None
+        if isinstance(e, ast.Name) and len(blockdefs.get(e.id, [])) == 1:
+            return comps(blockdefs[e.id][0], depth + 1)
+        if isinstance(e, ast.Call) and call_name(e) == "list" and len(e.args) == 1:
+            return comps(e.args[0], depth + 1)
+        return None
+    dom = comps(iter_base(lp.iter)[0])
+    okd = dom is not None and sorted(dom) == [0, 1, 2] and dom[0] == 0
+    ctx.ob("R-WSUM", "Function.add_point::terms visited", okd,
+           "the distribution loop visits the terms that need nothing, then those that need a gradient / both, each once" if okd else
+           "the distribution loop runs over classification lists %s (0 = need nothing, 1 = need a gradient, 2 = need both): expected every list once, "
+           "the already evaluated terms first -- otherwise a term is skipped / visited twice, or the remainder is handed to a term that is already "
+           "evaluated at the point" % (dom if dom is not None else "`%s` (not resolved)" % src(lp.iter)), loc(fn, lp))
+    gconds = [(t0, br) for t0, br, _ in flow.effective_guards(lp, stop=fn) if not (src(t0).replace(" ", "") in ("notself._is_leaf", "notself.get_is_leaf()"))]
+    okg = False
+    gmsg = "the distribution loop is not guarded by exactly one test"
+    if len(gconds) == 1:
+        t0, br = gconds[0]
+        subj = None
+        positive = br
+        if isinstance(t0, ast.Compare) and len(t0.ops) == 1:
+            l0, op0, r0 = t0.left, t0.ops[0], t0.comparators[0]
+            empty = (isinstance(r0, ast.List) and not r0.elts) or (isinstance(r0, ast.Call) and call_name(r0) == "list" and not r0.args)
+            if empty and isinstance(op0, (ast.NotEq, ast.Eq)):
+                subj, positive = l0, (br if isinstance(op0, ast.NotEq) else not br)
+            elif isinstance(l0, ast.Call) and call_name(l0) == "len" and l0.args and isinstance(r0, ast.Constant) and r0.value == 0 and isinstance(op0, (ast.Gt, ast.NotEq, ast.Eq)):
+                subj, positive = l0.args[0], (br if not isinstance(op0, ast.Eq) else not br)
+        elif isinstance(t0, ast.UnaryOp) and isinstance(t0.op, ast.Not):
+            subj, positive = t0.operand, not br
+        else:
+            subj = t0
+        gd = comps(subj) if subj is not None else None
+        okg = gd is not None and sorted(gd) == [1, 2] and positive
+        gmsg = ("the remainder is distributed exactly when some term needs a gradient or a value" if okg else
+                "the distribution runs when `%s` is %s, i.e. on classification lists %s %s: expected 'some term needs something' (lists 1 and 2 non-empty)"
+                % (src(t0), br, gd, "non-empty" if positive else "empty"))
+    ctx.ob("R-WSUM", "Function.add_point::runs when something is needed", okg, gmsg, loc(fn, lp))
     # initial values of the running remainder and the counter / total
     pre = {}
     for s in flow.stmts_of_block(comp[0]):
         if isinstance(s, ast.Assign) and isinstance(s.targets[0], ast.Name) and s.lineno < lp.lineno:
             pre[s.targets[0].id] = s.value
+        elif isinstance(s, ast.Assign) and isinstance(s.targets[0], ast.Tuple) and isinstance(s.value, ast.Tuple) and len(s.targets[0].elts) == len(s.value.elts) \
+                and s.lineno < lp.lineno:
+            for te, ve in zip(s.targets[0].elts, s.value.elts):
+                if isinstance(te, ast.Name):
+                    pre[te.id] = ve
     for n in (1, 2, 3):
         env = {p: PointV.atom("x"), g: PointV.atom("G"), f: ExprV.atom("F")}
         samples = []
